@@ -1,10 +1,16 @@
 import H264.Gen
+/-! Lean-side generator: values drawn from `H264/Gen.lean`, encoded with the proved spec encoders; every line is
+`<case> | <expected observation>` -/
 def main (args : List String) : IO Unit := do
-  let n := (args.getD 0 "1000").toNat!
-  let seed := (args.getD 1 "1").toNat!
+  let kind := args.getD 0 "sps"
+  let n := (args.getD 1 "1000").toNat!
+  let seed := (args.getD 2 "1").toNat!
   let mut rng : Gen.Rng := ⟨UInt64.ofNat (0x9E3779B97F4A7C15 + seed * 2654435761)⟩
   let out ← IO.getStdout
   for _ in List.range n do
-    let ((c, e), rng') := Gen.spsCase.run rng
-    rng := rng'
-    out.putStrLn (c ++ " | " ++ e)
+    if kind = "sps" then
+      let ((c, e), rng') := Gen.spsCase.run rng
+      rng := rng'
+      out.putStrLn (c ++ " | " ++ e)
+    else
+      out.putStrLn "bad-kind"
